@@ -527,6 +527,40 @@ impl<'a> Report<'a> {
         }
         let known_sigs: HashSet<String> = known.iter().map(|k| k.signature.clone()).collect();
 
+        // ---- committed regression replays (replays/<prop>/regress-*.json for this part): plain
+        // re-execution of saved shrunk cases, no generator involved
+        let mut regress_run = 0u64;
+        let mut regress_fail: Option<(Failure, Value)> = None;
+        if let Ok(rd) = std::fs::read_dir(root().join("replays").join(&self.ctx.prop)) {
+            let mut files: Vec<PathBuf> = rd.filter_map(|e| e.ok().map(|e| e.path())).collect();
+            files.retain(|p| {
+                p.file_name().and_then(|n| n.to_str()).is_some_and(|n| n.starts_with("regress-") && n.ends_with(".json"))
+            });
+            files.sort();
+            for p in files {
+                let Ok(b) = std::fs::read(&p) else { continue };
+                let Ok(rp) = serde_json::from_slice::<ReplayFile>(&b) else { continue };
+                if rp.part != name {
+                    continue;
+                }
+                let Ok(case) = serde_json::from_value::<T>(rp.case.clone()) else {
+                    println!("note: regression replay {} no longer decodes for part {name}; skipped", p.display());
+                    continue;
+                };
+                regress_run += 1;
+                let mut info = CaseInfo::default();
+                if let Err(fl) = run_one(&case, &mut info) {
+                    if known_sigs.contains(&fl.signature) {
+                        continue;
+                    }
+                    println!("regression replay {} FAILED: {}", p.display(), fl.signature);
+                    if regress_fail.is_none() {
+                        regress_fail = Some((fl, rp.case));
+                    }
+                }
+            }
+        }
+
         // ---- generated search on `workers` threads, each a pure function of (seed, part, worker)
         let workers = self.ctx.workers.min(cases.max(1) as usize).max(1);
         let per = cases as usize / workers;
@@ -655,6 +689,10 @@ impl<'a> Report<'a> {
             }
         }
         part.distinct_nontrivial = nontriv.len() as u64;
+        part.extra.insert("regression_replays_run".into(), json!(regress_run));
+        if let Some(rf) = regress_fail {
+            part.violation = Some(rf);
+        }
         for k in &known {
             if let Some(n) = known_seen.get(&k.signature) {
                 part.known_excluded += n;
